@@ -125,3 +125,57 @@ Proof.
   exact within_big.
 Qed.
 Print Assumptions C08_bytes_dagcbor_example.
+
+(* ====================================================================================================
+   DAG-JSON instance (json cluster): the typed round trip over the concrete DAG-JSON model
+   (Codec/DagJson.v; proofs Proofs/SchemaJson.v over Proofs/JsonPerm.v, from C04's theorems).
+   Hypotheses that remain, as premises (definitions at the end of Proofs/JsonMain.v, sampled on the real
+   code by ./check C04):  A1  strconv.ParseFloat inverts refmt's emitFloat on finite floats;
+                          A2  emitFloat's text is a JSON number with '.'/exponent iff the float is not an
+                              integer below 1e21;
+                          CID cid.Decode inverts Cid.String() on defined CIDs, CID strings are valid UTF-8.
+   json_within cid_ok d  =  json_safe cid_ok nonintegral d = true /\ jdepth d <= 1024: dag-json's domain
+   (finite floats none of which is an integer below 1e21 — the known C04 finding float_integral_text —,
+   valid UTF-8 strings and keys, int64 ints, defined CIDs, distinct keys, none of the two reserved shapes
+   {"/":string} / {"/":{"bytes":string}} inside Any content, decoder depth within the default limit). *)
+Require Import IP.Codec.DagJson IP.Proofs.JsonMain IP.Proofs.JsonPerm IP.Proofs.SchemaJson.
+
+Theorem C08_bytes_dagjson : forall fmt_float parse_float cid_str cid_parse cid_ok,
+  JsonMain.A1 fmt_float parse_float -> JsonMain.A2 fmt_float -> JsonMain.CID cid_str cid_parse cid_ok ->
+  forall e t v,
+  (e = Bind \/ e = Gen) -> wf t = true -> has_type t v = true ->
+  json_within cid_ok (repr_spec t v) ->
+  exists d' v', json_decode parse_float cid_parse (json_enc fmt_float cid_str (repr_spec t v)) = Ok (d', []) /\
+                rbuild e qoff t d' = BOk v' /\ veq v v' /\ has_type t v' = true /\
+                repr e qoff t v' = Some (repr_spec t v') /\
+                json_enc fmt_float cid_str (repr_spec t v') = json_enc fmt_float cid_str (repr_spec t v).
+Proof. exact typed_dagjson_roundtrip. Qed.
+Print Assumptions C08_bytes_dagjson.
+
+(* json_enc is what the registered encoder writes, for every tree it accepts *)
+Theorem C08_dagjson_encoder : forall fmt_float cid_str cid_ok d, JsonEnc.encodable cid_ok d = true ->
+  jenc fmt_float cid_str dagjson_eopts cid_ok d = Ok (json_enc fmt_float cid_str d).
+Proof. exact json_enc_is_encode. Qed.
+Print Assumptions C08_dagjson_encoder.
+
+(* dag-json meets the two hypotheses C08_bytes makes of "any codec", on every tree of its domain *)
+Theorem C08_dagjson_is_such_a_codec : forall fmt_float parse_float cid_str cid_parse cid_ok,
+  JsonMain.A1 fmt_float parse_float -> JsonMain.A2 fmt_float -> JsonMain.CID cid_str cid_parse cid_ok ->
+  forall d d', json_within cid_ok d ->
+  (exists d1, json_decode parse_float cid_parse (json_enc fmt_float cid_str d) = Ok (d1, []) /\ peq d d1) /\
+  (dm_wf d = true -> peq d d' -> json_enc fmt_float cid_str d = json_enc fmt_float cid_str d').
+Proof.
+  intros fmt_float parse_float cid_str cid_parse cid_ok H1 H2 H3 d d' Hw.
+  split; [exact (dagjson_dec_enc fmt_float parse_float cid_str cid_parse cid_ok H1 H2 H3 d Hw)|exact (dagjson_enc_peq fmt_float cid_str d d')].
+Qed.
+Print Assumptions C08_dagjson_is_such_a_codec.
+
+(* the premises are satisfiable: the deep example type and value are in dag-json's domain (for any notion of
+   defined CID), and A1, A2, CID have a model (C04_assumptions_consistent) *)
+Theorem C08_bytes_dagjson_example : forall cid_ok,
+  wf tBig = true /\ has_type tBig vBig = true /\ json_within cid_ok (repr_spec tBig vBig).
+Proof.
+  intros cid_ok. split; [vm_compute; reflexivity|]. split; [vm_compute; reflexivity|].
+  split; [vm_compute; reflexivity|vm_compute; discriminate].
+Qed.
+Print Assumptions C08_bytes_dagjson_example.
